@@ -678,3 +678,60 @@ Section FinalDecode.
   Qed.
   Transparent mk_field.
 End FinalDecode.
+
+(** ** the generated type of a selection set decodes a conforming response object *)
+Section CompositeDecodes.
+  Variable S : schema.
+  Variable frs : list fragdef.
+  Hypothesis HS : schema_ok S = true.
+  Variable m : name.
+  Variable d : typedef.
+  Variable all : list selection.
+  Variable fields : list (name * (gotype * bool)).
+  Variable conds : list (name * list name).
+
+  Notation Good := (GoodD S frs).
+  Hypothesis F1 : NoDup (map fst fields).
+  Hypothesis F3 : forall k T dash, In (k, (T, dash)) fields -> entry_src S Good m all all k T dash.
+  Hypothesis F4 : forall s, In s all -> entry_cov S Good m all fields s.
+  Hypothesis F5 : forall s, In s all -> cond_cov frs m conds s.
+  Hypothesis F6 : forall tc l x, In (tc, l) conds -> In x l -> cond_src frs m all tc x.
+  Hypothesis E1 : lookup_type S m = Some d.
+  Hypothesis E2 : members_distinct m all = true.
+  Hypothesis E3 : forall s, In s all -> sel_local S frs m s = true.
+  Hypothesis E4 : has_fragment all = true -> is_object_type S m = true \/ exists k, first_typename all = Some k.
+  Hypothesis E5 : NoDup (map (fun kf : name * name => lower_bytes (fst kf)) (direct_fields all)).
+  Hypothesis E6 : forall k f, In (k, f) (direct_fields all) ->
+                              begins_with_letter k = true \/ (is_typename k = true /\ is_typename f = true).
+  Variable idx : N.
+
+  Let fs := sort_fields (map mk_field fields).
+  Let tnKey := match first_typename all with Some k => k | None => typename_name end.
+  Let steps := mk_steps no_quirks S m d tnKey conds.
+  Let core := match conds with [] => GStruct fs | _ :: _ => GSel m idx fs steps end.
+
+  Variable P : program.
+  Hypothesis HP : frags_gen S frs P.
+  Hypothesis Hsyn : type_syntax_ok core = true.
+  Hypothesis HspreadD : forall F c body, In (SSpread F c body) all ->
+    forall tn rfs, objc S body c tn rfs = true ->
+                   decodes P (GFragRef F) (json_of (RObj tn rfs)) (obje S body c tn rfs).
+
+  Theorem composite_decodes tn rfs :
+    objc S all m tn rfs = true -> decodes P core (json_of (RObj tn rfs)) (obje S all m tn rfs).
+  Proof.
+    intros Hconf.
+    destruct (uniform_bound all (Qs S m all fields P tn rfs)) as [K HK].
+    { intros s k k'. apply Qs_mono. }
+    { intros s Hs. apply (Qs_exists S frs m d all fields conds F4 F5 F6 E3 idx P HP Hsyn HspreadD tn rfs Hconf s Hs). }
+    destruct (base_exists S frs m all fields F1 F3 E2 E5 E6 P tn rfs Hconf K HK) as [base [Hbase Hslots]].
+    destruct (final_value S frs HS m d all fields conds F1 F3 F4 F5 F6 E1 E2 E3 E4 E6 idx P Hsyn tn rfs Hconf K HK base Hslots)
+      as [sv' [Hrun Hl]].
+    apply (decodes_intro P core _ _ (Datatypes.S K) (VStruct sv')); [|exact Hl].
+    rewrite decode_S. unfold core, decode_body, fs, steps, tnKey in *.
+    change (json_of (RObj tn rfs)) with (JObj (map (fun kv : bytes * rv => (fst kv, json_of (snd kv))) rfs)).
+    case_eq conds.
+    - intros Ec. rewrite Hbase. simpl. unfold mk_steps in Hrun. rewrite Ec in Hrun. simpl in Hrun. inversion Hrun. reflexivity.
+    - intros c0 cr Ec. rewrite Hbase. cbn [dbind]. rewrite <- Ec. rewrite Hrun. reflexivity.
+  Qed.
+End CompositeDecodes.
